@@ -13,7 +13,8 @@ LEVEL = 'exploration'
 RULE = ("histories: 1-3 watchers with spawn-phase hooks (true/false/raise x "
         "ignore flag), exec failures at the n-th attempt, <= 30 ops from the "
         "full request set (incr, decr, set, start, stop, restart, reload, rm "
-        "with and without nostop, kill, signal), worker deaths and deaths at "
+        "with and without nostop, kill, signal; config-file edits + reloadconfig "
+        "in a third of the cases), worker deaths and deaths at "
         "the k-th next kernel call.  enumeration: start/restart/incr under "
         "each spawn-path failure x a death at every kernel-call boundary.  "
         "Non-trivial = a quiescent point was reached after >= 1 failure-path "
@@ -40,7 +41,8 @@ def _leak_cause(h, pid):
     return 'unknown'
 
 
-def accounting(h, names, removed_nostop, after_check, where):
+def accounting(h, names, removed_nostop, after_check, where,
+               check_started=None):
     """Cross-check replies against the kernel table at a quiescent point."""
     w = h.world
     k = w.kernel
@@ -110,10 +112,19 @@ def accounting(h, names, removed_nostop, after_check, where):
                 'watcher reports it (%s); behaviour %r' % (
                     p, owner, k.procs[p].spawned_at, where,
                     rec.get("beh"))))
-    if after_check and k.zombies():
-        viols.append(Violation(
-            'C04:zombie-after-check', 'zombie children %r remain after a '
-            'complete periodic check' % k.zombies()))
+    if after_check:
+        # a worker the check itself terminated may die after the check's
+        # reaping sweep; it is the next check's to collect.  Only zombies that
+        # were already dead when the check began have outlived a check.
+        died = dict((d["pid"], d["t"]) for d in k.death_log)
+        old = [p for p in k.zombies()
+               if check_started is None or
+               died.get(p, -1.0) < check_started - 1e-9]
+        if old:
+            viols.append(Violation(
+                'C04:zombie-after-check', 'zombie children %r, dead before '
+                'the check began, remain after a complete periodic check'
+                % old))
     return viols
 
 
@@ -145,6 +156,7 @@ def execute(case):
         h.start()
         h.run(on_op)
         ok = h.settle(checks=0)
+        t_check = w.loop.time()
         if ok and not w.exited:
             w.full_check()
             ok = w.quiescent()
@@ -154,7 +166,7 @@ def execute(case):
         elif ok and not w.exited:
             qpoints[0] += 1
             viols.extend(accounting(h, names, removed_nostop, True,
-                                    'after-check'))
+                                    'after-check', check_started=t_check))
         elif not w.exited:
             viols.append(Violation('C04:no-quiescence', 'not quiescent'))
         failure_events = (
@@ -189,7 +201,8 @@ def replay(case):
 def _strategy():
     return lifecycle_cases(hooks=True, exec_fail=True, children=2,
                            max_watchers=3, kill_cmd=True, signal_cmd=True,
-                           respawn_false=True, rm=True, set_other=True)
+                           respawn_false=True, rm=True, set_other=True,
+                           config=True)
 
 
 HOOKSETS = {
